@@ -104,6 +104,11 @@ func SolveProbe(script string, dir, name string, timeoutS int) SolverResult {
 // which are appended here). z3-new gets a head start; the others join if it has
 // not answered definitively within headStart.
 func Solve(script string, dir, name string, timeoutS int, confirm bool) SolverResult {
+	return SolveOpt(script, dir, name, timeoutS, confirm, true)
+}
+
+// SolveOpt: deep=false skips the default-configuration fallback.
+func SolveOpt(script string, dir, name string, timeoutS int, confirm, deep bool) SolverResult {
 	os.MkdirAll(dir, 0o755)
 	file := filepath.Join(dir, name+".smt2")
 	full := "(set-option :produce-models true)\n(set-logic ALL)\n" + script + "\n(check-sat)\n(get-model)\n"
@@ -207,6 +212,24 @@ func Solve(script string, dir, name string, timeoutS int, confirm bool) SolverRe
 			res.Model = out
 		} else if v == "unsat" {
 			res.Verdict, res.Solver = "unsat", sp.name
+			definitive = true
+		}
+	}
+	if !definitive && res.Verdict == "unknown" && deep {
+		// the old z3 with its default configuration (auto-config, mbqi) decides some
+		// goals over arrays of records on which the tuned E-matching setups give up
+		sp := solverSpec{"z3(default)", func(f string, t int) []string {
+			return []string{fmt.Sprintf("-T:%d", t), f}
+		}, "z3"}
+		to := timeoutS
+		if to > 10 {
+			to = 10
+		}
+		v, _, dt := runOne(context.Background(), sp, file, to)
+		res.Raw[sp.name] = fmt.Sprintf("%s (%.2fs)", v, dt)
+		if v == "unsat" {
+			res.Verdict, res.Solver = "unsat", sp.name
+			res.TimeS = time.Since(t0).Seconds()
 			definitive = true
 		}
 	}
